@@ -11,6 +11,10 @@ CHECKS = [
   'technique': 'model-based operation histories (exhaustive short + Hypothesis long, nested sub-readers) vs byte-cursor reference model; step-budget livelock detection',
   'text': 'All histories of <=2 (quick) / <=3 (thorough) operations from a 15-operation alphabet over all data strings of length <=4/5 over {a,b,-}, chunk sizes 1-3 and two chunkings are run on the real sync and async BufferedReader and compared step by step (return value, DelimiterError, tell/eof, bytes requested from the source) with a 40-line cursor model; plus tens of thousands of random histories of <=10 operations with nested delimit() to depth 2, long data crossing the max-join threshold, declared max length below/equal/above the data. Bounded-exhaustive + random exploration.',
   'note': 'trusts the cursor model in vf/checks/c14_readers.py, CPython, Hypothesis; Cython reader not covered; parent operations while a child is half-read are outside the domain; async eof may lag (one-sided)'},
+ {'id': 'C07',
+  'technique': 'operation histories over body streams (exhaustive <=3 ops + Hypothesis) vs prefix/budget/position invariants over a reference cursor; instrumented wsgi.input and scripted ASGI receive',
+  'text': 'All histories of <=3 operations (12-op WSGI alphabet, 10-op ASGI alphabet) over newline-rich bodies / event scripts and every Content-Length regime (absent, exact, shorter, longer) plus tens of thousands of random longer histories are run on the real BoundedStream objects obtained from falcon.Request / falcon.asgi.Request; after every step: bytes returned are a prefix of the declared body, sized reads within size, no end-of-stream report before the whole body, wsgi.input never read past Content-Length nor with unbounded size, ASGI receive never awaited after the terminal event, tell()/eof consistent. Bounded-exhaustive + random exploration.',
+  'note': 'trusts the invariants in vf/checks/c07_streams.py and the fake server streams; negative sizes other than -1 and undocumented read/iterate mixes are outside the domain; known finding F21 excluded by a narrow predicate'},
 ]
 _claimed = {c['id'] for c in CHECKS}
 NOT_APPLICABLE = [{'property_id': p, 'reason': 'check not built yet (work in progress; the technique applies, see DESIGN.md)'} for p in _ALL if p not in _claimed]
